@@ -254,6 +254,18 @@ def run_creation(case: dict, root: str, *, sim_kwargs: dict | None = None, trace
             j = {"first": 0, "middle": len(centers) // 2, "last": len(centers)}[fault.get("pos", "last")]
             centers_given = np.insert(centers, j, far, axis=0)
         coords = yaw.AngularCoordinates(centers_given)
+        if p.get("centers_from_catalog") and kind != "empty_center":
+            # the documented alternative: another catalog defines the patch centres
+            from sim.scenes import sequential_mode
+
+            helper_rec = dict(
+                ra=np.rad2deg(np.repeat(centers_given[:, 0], 2)), dec=np.rad2deg(np.repeat(centers_given[:, 1], 2))
+            )
+            with sequential_mode():
+                coords = yaw.Catalog.from_dataframe(
+                    os.path.join(root, "centre_catalog"), wl.make_dataframe(helper_rec), ra_name="ra", dec_name="dec",
+                    patch_centers=yaw.AngularCoordinates(centers_given.copy()), max_workers=1,
+                )
 
     # ---- source
     trace: list = []
@@ -399,7 +411,7 @@ def run_creation(case: dict, root: str, *, sim_kwargs: dict | None = None, trace
         patch_ids=pids,
         centers=centers,
         centers_given=None if centers_given is None else np.array(centers_given, copy=True),
-        coords_object=coords,
+        coords_object=coords if not p.get("centers_from_catalog") else None,
         gen_args=gen_args,
         races=sim.file_races(),
         fault_fired=dict(sim.faults.get("_fired", {})),
